@@ -405,9 +405,25 @@ pub fn ntru_gen(
 ) {
     // let mut rng: StdRng = SeedableRng::from_seed(seed);
 
+    // The secret-key encoding stores f and g in 6 bits (n = 512) or 5 bits (n = 1024) and F in 8
+    // bits, two's complement without the minimum value. Candidates that do not fit are rejected,
+    // as in the reference implementation, so that every generated key can be serialized.
+    let fg_limit: i16 = match n {
+        1024 => 15,
+        512 => 31,
+        _ => 127,
+    };
+    let capital_fg_limit: i32 = 127;
+
     loop {
         let f = gen_poly(n, rng);
         let g = gen_poly(n, rng);
+        if f.coefficients.iter().any(|&c| c > fg_limit || c < -fg_limit) {
+            continue;
+        }
+        if g.coefficients.iter().any(|&c| c > fg_limit || c < -fg_limit) {
+            continue;
+        }
 
         let f_ntt = f.map(|&i| Felt::new(i)).fft();
         if f_ntt.coefficients.iter().any(|e| e.is_zero()) {
@@ -421,6 +437,20 @@ pub fn ntru_gen(
         if let Some((capital_f, capital_g)) =
             ntru_solve_entrypoint(f.map(|&i| i as i32), g.map(|&i| i as i32))
         {
+            if capital_f
+                .coefficients
+                .iter()
+                .any(|&c| c > capital_fg_limit || c < -capital_fg_limit)
+            {
+                continue;
+            }
+            if capital_g
+                .coefficients
+                .iter()
+                .any(|&c| c > capital_fg_limit || c < -capital_fg_limit)
+            {
+                continue;
+            }
             return (
                 f,
                 g,
